@@ -1,14 +1,17 @@
 (* BiffSst.v — property C12: XLS (BIFF8) strings across CONTINUE records and packings.
 
    Part 1  M: faithful executable model of the string readers of /repo/src/xls.rs and of
-              XlsEncoding::decode_to of /repo/src/cfb.rs under code page 1200 (UTF-16LE), including
-              what encoding_rs's UTF-16LE decoder does on each call (replacement of lone
-              surrogates per segment).
+              XlsEncoding::decode_to / decode_segment of /repo/src/cfb.rs under code page 1200
+              (UTF-16LE), including what encoding_rs's UTF-16LE decoder does: one-shot per call
+              (decode_to) and streaming over the segments of one string (read_dbcs), with
+              replacement of lone surrogates.  Code as of the hardening commits (errors instead of
+              panics on malformed input) plus the fix that lets read_dbcs use one decoder per
+              string.
    Part 2  S: UTF-16 decoding of a whole string (the text the writer stored).
    Part 3  E: the writer of MS-XLS 2.4.265 (SST) / 2.5.293 (XLUnicodeRichExtendedString) /
               2.5.294 (XLUnicodeString) / 2.5.240 (ShortXLUnicodeString) with every degree of
               freedom the format leaves: where CONTINUE records start, how each segment is packed.
-   Part 4  legal layouts and the classes on which the current code is known to deviate.
+   Part 4  legal layouts (no class is known on which the current code deviates).
    Definitions only (proofs: BiffSst_proofs.v); everything computes. *)
 From Calamine Require Import Prelude.
 Open Scope N_scope.
@@ -50,6 +53,9 @@ Definition i32_as_usize (x : Z) : N :=
 (* `&s[n..]` *)
 Definition slice_from {A} (s : list A) (n : N) : outcome (list A) :=
   if n <=? len s then Ok (drop n s) else Panic.
+(* `s.get(n..).ok_or(XlsError::EoStream(..))` *)
+Definition get_from {A} (s : list A) (n : N) : outcome (list A) :=
+  if n <=? len s then Ok (drop n s) else Err 2.
 
 (** ** encoding_rs, as far as calamine reaches it with code page 1200 *)
 
@@ -84,8 +90,35 @@ Fixpoint utf16_sm (be : bool) (bs : bytes) (lead_byte : option N) (lead_sur : N)
     end
   end.
 
-(* `UTF_16LE.decode_without_bom_handling(bytes).0` (since fix 98c2838; before it, Encoding::decode
-   sniffed a byte-order mark at the start of every segment) *)
+(* the same decoder fed with one chunk of a longer input (last = false): what it emits for the
+   chunk and the state it keeps (pending lead byte, pending lead surrogate) for the next call.
+   [utf16_sm] is the call with last = true from a given state. *)
+Definition dec_state := (option N * N)%type.
+Definition dec_init : dec_state := (None, 0).      (* new_decoder_without_bom_handling() *)
+Fixpoint utf16_feed (be : bool) (bs : bytes) (lead_byte : option N) (lead_sur : N)
+  : list N * dec_state :=
+  match bs with
+  | [] => ([], (lead_byte, lead_sur))
+  | b :: rest =>
+    match lead_byte with
+    | None => utf16_feed be rest (Some b) lead_sur
+    | Some lead =>
+      let cu := if be then lead * 256 + b else b * 256 + lead in
+      if is_high cu then
+        if lead_sur =? 0 then utf16_feed be rest None cu
+        else let r := utf16_feed be rest None cu in (FFFD :: fst r, snd r)
+      else if is_low cu then
+        if lead_sur =? 0 then let r := utf16_feed be rest None 0 in (FFFD :: fst r, snd r)
+        else let r := utf16_feed be rest None 0 in (pair_scalar lead_sur cu :: fst r, snd r)
+      else
+        if lead_sur =? 0 then let r := utf16_feed be rest None 0 in (cu :: fst r, snd r)
+        else let r := utf16_feed be rest None 0 in (FFFD :: cu :: fst r, snd r)
+    end
+  end.
+
+(* a fresh decoder run over one complete input: what `decode_without_bom_handling(bytes).0` was
+   (fix 98c2838; before it, Encoding::decode sniffed a byte-order mark at the start of every
+   segment) and what decode_to does now with a decoder of its own and last = true *)
 Definition enc_decode (bs : bytes) : list N := utf16_sm false bs None 0.
 
 (** ** cfb.rs XlsEncoding *)
@@ -97,15 +130,32 @@ Definition high_byte_cp1200 (hb : option bool) : bool :=
 (* the 8-bit branch widens every byte to a 16-bit unit: bytes[2*i] = b, bytes[2*i+1] = 0 *)
 Definition widen (bs : bytes) : bytes := flat_map (fun b => [b; 0]) bs.
 
-(* XlsEncoding::decode_to(stream, len, s, high_byte) -> (l, ub); the third component is what
-   is appended to s *)
-Definition decode_to (stream : bytes) (n : N) (hb : option bool) : N * N * list N :=
+(* the `match self.high_byte(high_byte)` of decode_segment: (l, ub, bytes handed to the decoder) *)
+Definition segment (stream : bytes) (n : N) (hb : option bool) : N * N * bytes :=
   if high_byte_cp1200 hb then
     let l := N.min (len stream / 2) n in
-    (l, 2 * l, enc_decode (take (2 * l) stream))
+    (l, 2 * l, take (2 * l) stream)
   else
     let l := N.min (len stream) n in
-    (l, l, enc_decode (widen (take l stream))).
+    (l, l, widen (take l stream)).
+
+(* XlsEncoding::decode_segment(decoder, stream, len, s, high_byte, last) -> (l, ub).
+   last = false: (l, ub, text appended to s, decoder afterwards);
+   last = true:  (l, ub, text appended to s) — the decoder is finished. *)
+Definition decode_segment (ds : dec_state) (stream : bytes) (n : N) (hb : option bool)
+  : N * N * list N * dec_state :=
+  let '(l, ub, bs) := segment stream n hb in
+  let r := utf16_feed false bs (fst ds) (snd ds) in
+  (l, ub, fst r, snd r).
+Definition decode_segment_last (ds : dec_state) (stream : bytes) (n : N) (hb : option bool)
+  : N * N * list N :=
+  let '(l, ub, bs) := segment stream n hb in
+  (l, ub, utf16_sm false bs (fst ds) (snd ds)).
+
+(* XlsEncoding::decode_to(stream, len, s, high_byte) -> (l, ub): decode_segment with a decoder of
+   its own and last = true; the third component is what is appended to s *)
+Definition decode_to (stream : bytes) (n : N) (hb : option bool) : N * N * list N :=
+  decode_segment_last dec_init stream n hb.
 
 (** ** xls.rs Record *)
 
@@ -138,24 +188,31 @@ Fixpoint skip_loop (conts : list bytes) (data : bytes) (n : N) {struct conts} : 
 Definition skip (st : rstate) (n : N) : outcome rstate :=
   if n =? 0 then Ok st else skip_loop (snd st) (fst st) n.
 
-(* read_dbcs: one iteration of `while len > 0` entered with len > 0 *)
-Fixpoint dbcs_loop (conts : list bytes) (data : bytes) (n : N) (hb : bool) (acc : list N)
-  {struct conts} : outcome (list N * rstate) :=
-  let '(l, at_, str) := decode_to data n (Some hb) in
+(* read_dbcs: one iteration of `while len > 0` entered with len > 0; ds is the decoder the
+   whole string shares (a CONTINUE record may start inside a surrogate pair) *)
+Fixpoint dbcs_loop (conts : list bytes) (data : bytes) (n : N) (hb : bool) (ds : dec_state)
+  (acc : list N) {struct conts} : outcome (list N * dec_state * rstate) :=
+  let '(l, at_, str, ds') := decode_segment ds data n (Some hb) in
   let acc' := acc ++ str in
   let data' := drop at_ data in                (* at_ <= data.len() by construction *)
   let n' := n - l in
-  if n' =? 0 then Ok (acc', (data', conts))
+  if n' =? 0 then Ok (acc', ds', (data', conts))
   else match conts with
        | [] => Err E_EOS                        (* EoStream("dbcs") *)
        | c :: cs =>
          match c with
-         | [] => Panic                          (* r.data[0] on an empty CONTINUE *)
-         | f :: c' => dbcs_loop cs c' n' (N.odd f) acc'
+         | [] => Err E_CONT                     (* an empty CONTINUE: ContinueRecordTooShort *)
+         | f :: c' => dbcs_loop cs c' n' (N.odd f) ds' acc'
          end
        end.
 Definition read_dbcs (st : rstate) (n : N) (hb : bool) : outcome (list N * rstate) :=
-  if n =? 0 then Ok ([], st) else dbcs_loop (snd st) (fst st) n hb [].
+  do r <- (if n =? 0 then Ok ([], dec_init, st)
+           else dbcs_loop (snd st) (fst st) n hb dec_init []);
+  let '(s, ds, st') := r in
+  (* decode_segment(&mut decoder, &[], 0, &mut s, Some(high_byte), true): the flag does not
+     matter for an empty stream *)
+  let '(_, _, tl) := decode_segment_last ds [] 0 (Some hb) in
+  Ok (s ++ tl, st').
 
 (* read_rich_extended_string, in three pieces.
    enter_string: `r.data.is_empty() && !r.continue_record()` — the state the header is read from
@@ -165,18 +222,27 @@ Definition enter_string (st : rstate) : option rstate :=
     (let (ok, st') := continue_record st in if ok then Some st' else None)
   else Some st.
 (* cch, flags, then cRun when fRichSt (bit 3) and cbExtRst when fExtSt (bit 2) are set:
-   (cch, fHighByte, c_run, cb_ext_rst, data after the header) *)
+   (cch, fHighByte, c_run, cb_ext_rst, data after the header); a fragment that ends inside the
+   cRun / cbExtRst field is an error (XlsError::Len) *)
+(* `if flags & 0x8 != 0 { .. c_run = read_u16(r.data); r.data = &r.data[2..] }` *)
+Definition read_c_run (flags : N) (data : bytes) : outcome (N * bytes) :=
+  if N.testbit flags 3 then
+    if len data <? 2 then Err E_LEN else
+    do v <- read_u16 data; do d <- slice_from data 2; Ok (v, d)
+  else Ok (0, data).
+(* `if flags & 0x4 != 0 { .. cb_ext_rst = read_i32(r.data) as usize; r.data = &r.data[4..] }` *)
+Definition read_cb_ext_rst (flags : N) (data : bytes) : outcome (N * bytes) :=
+  if N.testbit flags 2 then
+    if len data <? 4 then Err E_LEN else
+    do v <- read_i32 data; do d <- slice_from data 4; Ok (i32_as_usize v, d)
+  else Ok (0, data).
 Definition read_string_header (data : bytes) : outcome (N * bool * N * N * bytes) :=
   do cch <- read_u16 data;
   let flags := nth 2 data 0 in
   let data := drop 3 data in
-  do cr <- (if N.testbit flags 3
-            then (do v <- read_u16 data; do d <- slice_from data 2; Ok (v, d))
-            else Ok (0, data));
+  do cr <- read_c_run flags data;
   let '(c_run, data) := cr in
-  do ce <- (if N.testbit flags 2
-            then (do v <- read_i32 data; do d <- slice_from data 4; Ok (i32_as_usize v, d))
-            else Ok (0, data));
+  do ce <- read_cb_ext_rst flags data;
   let '(cb_ext_rst, data) := ce in
   Ok (cch, N.odd flags, c_run, cb_ext_rst, data).
 Definition read_rich_extended_string (st : rstate) : outcome (list N * rstate) :=
@@ -212,14 +278,16 @@ Definition parse_sst (st : rstate) : outcome (list (list N)) :=
   let '(data, conts) := st in
   if len data <? 8 then Err E_LEN else
   do x <- read_i32 (drop 4 data);
-  if (x <? 0)%Z then Panic                       (* usize::try_from(i32).unwrap() *)
+  if (x <? 0)%Z then Err E_LEN                   (* usize::try_from(i32) fails: XlsError::Len *)
   else
-    (* Vec::with_capacity(len): see sst_capacity_request *)
+    (* Vec::with_capacity(len.min(available / 3)): see sst_capacity_request *)
     sst_loop (S (total_bytes st)) (Z.to_N x) (drop 8 data, conts) [].
-(* number of elements (24-byte Strings) parse_sst asks the allocator for before reading anything *)
+(* number of elements (24-byte Strings) parse_sst asks the allocator for before reading anything:
+   the declared count, capped by a third of the bytes of the record and its CONTINUE records *)
 Definition sst_capacity_request (st : rstate) : N :=
   match read_i32 (drop 4 (fst st)) with
-  | Ok x => if (len (fst st) <? 8) || (x <? 0)%Z then 0 else Z.to_N x
+  | Ok x => if (len (fst st) <? 8) || (x <? 0)%Z then 0
+            else N.min (Z.to_N x) (N.of_nat (total_bytes st) / 3)
   | _ => 0
   end.
 
@@ -265,6 +333,7 @@ Definition parse_label_sst (r : bytes) (strings : list (list N)) : outcome (opti
 
 (* parse_sheet_metadata (BoundSheet8), Biff8: (stream position, name with NULs removed) *)
 Definition parse_sheet_metadata (data : bytes) : outcome (N * list N) :=
+  if len data <? 6 then Err E_LEN else
   do pos <- read_u32 data;
   do vis <- of_option (nth_error data 4);
   if 2 <? N.land vis 63 then Err E_UNREC else
@@ -341,9 +410,11 @@ Fixpoint wb_globals (recs : list (outcome rec_item)) (sheets : list (N * list N)
   | Ok (t, d, c) :: rest =>
     if t =? 47 then Err E_PASSWORD                               (* 0x002F FilePass *)
     else if t =? 66 then                                         (* 0x0042 CodePage *)
+      if len d <? 2 then Err E_LEN else
       do cp <- read_u16 d;
       if cp =? 1200 then wb_globals rest sheets strings else Err E_UNMODELLED
     else if t =? 2057 then                                       (* 0x0809 BOF *)
+      if len d <? 2 then Err E_LEN else                          (* parse_bof *)
       do v <- read_u16 (take 2 d);
       if v =? 1536 then wb_globals rest sheets strings else Err E_UNMODELLED
     else if t =? 133 then                                        (* 0x0085 BoundSheet8 *)
@@ -400,7 +471,7 @@ Fixpoint wb_sheets (stream : bytes) (strings : list (list N)) (l : list (N * lis
   match l with
   | [] => Ok []
   | (pos, name) :: l' =>
-    do sh <- slice_from stream pos;                              (* &stream[pos..] *)
+    do sh <- get_from stream pos;                                (* stream.get(pos..).ok_or(EoStream) *)
     do cells <- wb_sheet (records sh) strings (0, 0) [];
     do tl <- wb_sheets stream strings l';
     Ok ((name, cells) :: tl)
@@ -583,7 +654,7 @@ Definition wb_spec (strs : list ustring) (shs : list sheet_spec) : list (list N 
                   flat_map (cell_text (map utf16_decode strs)) (sh_cells sh))) shs.
 
 (* ------------------------------------------------------------------------------------- *)
-(** * Part 4 — legal layouts, known classes                                               *)
+(** * Part 4 — legal layouts                                                              *)
 (* ------------------------------------------------------------------------------------- *)
 
 Definition all_lt (b : N) (l : list N) : bool := forallb (fun x => x <? b) l.
@@ -622,31 +693,12 @@ Definition legal_layout (strs : list ustring) (lay : layout) : bool :=
   && (len strs <=? 2147483647) && (lay_total lay <=? 4294967295)
   && forallb (fun p => legal_string (fst p) (snd p)) (combine strs (lay_strs lay)).
 
-(* Classes of (string table, layout) on which the current code does not return the stored text. *)
-Inductive c12_class :=
-| CutInsidePair.       (* a cut between the two halves of a surrogate pair *)
-
+(* No class of (string table, layout) is known on which the code does not return the stored text.
+   (Until the fix that gave read_dbcs one decoder per string, a cut between the two halves of a
+   surrogate pair — ends_high a && starts_low b for the segments a, b around it — read as two
+   U+FFFD: class CutInsidePair, finding F24.) *)
 Definition ends_high (us : list N) : bool := is_high (last us 0).
 Definition starts_low (us : list N) : bool := match us with u :: _ => is_low u | [] => false end.
-Fixpoint known_chars (us : list N) (cuts : list (nat * bool)) : option c12_class :=
-  match cuts with
-  | [] => None
-  | (n, hb') :: cs =>
-    let a := firstn n us in
-    let b := skipn n us in
-    if ends_high a && starts_low b then Some CutInsidePair
-    else known_chars b cs
-  end.
-Definition known_string (us : ustring) (sl : str_layout) : option c12_class :=
-  known_chars us (sl_cuts sl).
-
-Fixpoint first_some {A B} (f : A -> option B) (l : list A) : option B :=
-  match l with
-  | [] => None
-  | x :: r => match f x with Some b => Some b | None => first_some f r end
-  end.
-Definition known_C12 (strs : list ustring) (lay : layout) : option c12_class :=
-  first_some (fun p => known_string (fst p) (snd p)) (combine strs (lay_strs lay)).
 
 (* XLUnicodeString / ShortXLUnicodeString: one segment, never split *)
 Definition legal_xl_string (hb : bool) (us : list N) : bool :=
